@@ -32,15 +32,20 @@ MANIFEST = dict(
          "satisfies every Equal / IsDType / EqualScalar constraint under every well-sorted valuation that is an "
          "instance of it; C02_whole_input / C02_whole_input_accepted — a statement that fails to check after a checked "
          "prefix rejects the whole input, leaves the pre-input checker state and never enters the run stage; "
-         "C02_accept_sound / C02_accept_sound_annotated — for the arithmetic core of the elaborator (literals incl. the "
+         "C02_accept_sound / C02_accept_sound_annotated — for every expression form of the elaborator model (literals incl. the "
          "polymorphic 0, identifiers, units, unary and binary operators with constant exponents, comparisons, if, calls "
          "of monomorphic and of generic (quantified, Dim-bounded) functions and values with instantiation by fresh "
-         "variables; no list literals) over well-formed environments: acceptance plus a "
+         "variables, list literals) over well-formed environments: acceptance plus a "
          "solver solution imply, in every well-sorted instance of the solution, the declarative dimensional analysis "
          "has_ty of Dim/Sem.v at exactly the meaning of the inferred (and of the reported) type, and for annotated "
          "definitions that the annotation denotes the derived dimension; C02_canonical_form — every factor list produced by "
-         "try_canonicalize is strictly sorted with non-zero exponents and canonicalisation is idempotent. NOT proved: accept-soundness for function "
-         "definitions/generalisation and list literals; C02_reject_complete; solver "
+         "try_canonicalize is strictly sorted with non-zero exponents and canonicalisation is idempotent; "
+         "C02_decides_partial / C02_reject_complete_partial / C02_accept_exact_partial — 'exactly' on the monomorphic "
+         "arithmetic fragment (non-zero literals, names, unary minus, + - -> * / ^ over an environment of monomorphic "
+         "variable-free dimension types): the elaborator accepts iff ordinary dimensional analysis (danalyse) succeeds, "
+         "with exactly that dimension as the type, so a rejected expression is dimensionally inconsistent. NOT proved: "
+         "that a function DEFINITION adds a well-formed generalised scheme to the environment (env_ok preserved by "
+         "generalisation); reject-completeness beyond the monomorphic fragment (needs principal types); solver "
          "termination/mgu; idempotence of the returned substitution. Those clauses rest on the ties: accept/reject, the "
          "TypeCheckError variant and the raw type scheme of every statement are compared between model and "
          "implementation on generated multi-statement programs, mis-dimensioned variants and two-input sessions; an "
@@ -57,7 +62,8 @@ MANIFEST = dict(
 )
 
 THEOREMS = ["C02_solver_sound", "C02_accept_sound", "C02_accept_sound_annotated", "C02_canonical_form",
-            "C02_whole_input", "C02_whole_input_accepted"]
+            "C02_whole_input", "C02_whole_input_accepted", "C02_decides_partial", "C02_reject_complete_partial",
+            "C02_accept_exact_partial"]
 ALLOWED_AXIOMS = []
 IMPORTS = ["Dim.Model", "Dim.Infer", "Dim.Exec", "Gen.PreludeDims"]
 VO = ["theories/Props/C02.vo", "theories/Dim/Exec.vo", "theories/Gen/PreludeDims.vo"]
